@@ -53,12 +53,58 @@ def run(ctx):
         n += eng.evaluate_entry(ctx, "T5-range-guard", e, lambda t, ints=ints: t[0] == "param" and t[1] in ints)
     ctx.floor("parameter-origin panic sites in the query scope", n, 20)
     query_ranges(ctx)
+    default_m_table(ctx, ctx.facts.getters())
     table_slots(ctx)
     ctx.clauses.append("PartialDSym and SimpleDSym (PartialDSet and SimpleDSet) answer the queries with sibling implementations of the same structure (T4 cross-check)")
     for m_, tr in (("r", "dsets::DSet"), ("m", "dsets::DSet"), ("v", "dsyms::DSym"), ("op", "dsets::DSet")):
         siblings_agree(ctx, "T4-siblings-agree", "<dsyms::PartialDSym as %s>::%s" % (tr, m_), "<dsyms::SimpleDSym as %s>::%s" % (tr, m_), "PartialDSym ~ SimpleDSym", compare_fields=True)
     siblings_agree(ctx, "T4-siblings-agree", "<dsets::PartialDSet as dsets::DSet>::op", "<dsets::SimpleDSet as dsets::DSet>::op", "PartialDSet ~ SimpleDSet", ignore=("unreachable_unchecked",))
     ctx.notes.append("T5 engine stats: %s" % eng.stats)
+
+
+def default_m_table(ctx, g):
+    """the trait-default m(i, j, d) of a plain D-set (no degrees stored) is a function of |i - j| only: 1 on the diagonal, 0 (= undetermined)
+    for adjacent indices IN EITHER ORDER, 2 otherwise, None outside the ranges; decided by evaluating the path conditions of the returns
+    for all 0 <= i, j <= 4 (dim 3) and d in 0..=6 (size 5)"""
+    ctx.clauses.append("default m(i, j, d): symmetric decision table 1 / 0 / 2 by |i - j|, None exactly outside 0..=dim x 1..=size (T4, path conditions evaluated on all small arguments)")
+    b = ctx.body("dsets::DSet::m")
+    ctx.scan([b])
+    me, i_, j_, d_ = (("param", k, b.debug.get(k, "")) for k in (1, 2, 3, 4))
+    dim_t, size_t = ("call", "dsets::DSet::dim", (me,)), ("call", "dsets::DSet::size", (me,))
+    rets = {}
+    for bi, si, s in b.assigns():
+        if s["place"]["l"] == 0 and not s["place"]["p"]:
+            v = norm(b.rv_origin(s["rv"]), g)
+            if v[0] == "agg" and v[1].endswith("Option::None"):
+                rets[bi] = None
+            elif v[0] == "agg" and v[1].endswith("Option::Some"):
+                rets[bi] = eval_int(v[2][0])
+    paths = paths_to(b, 0, set(rets), g=g)
+    bad = None
+    n = 0
+    for i in range(5):
+        for j in range(5):
+            for d in (0, 1, 5, 6):
+                hits = set()
+                for tgt, atoms in paths:
+                    vals = [eval_atom_env(a, {i_: i, j_: j, d_: d, dim_t: 3, size_t: 5}) for a in atoms if not is_ovf_atom(a)]
+                    if any(v is None for v in vals):
+                        bad = bad or "a branch condition of m() cannot be evaluated: %s" % [show_atom(a)[:40] for a in atoms if not is_ovf_atom(a) and eval_atom_env(a, {i_: i, j_: j, d_: d, dim_t: 3, size_t: 5}) is None][:1]
+                        continue
+                    if all(vals):
+                        hits.add(tgt)
+                if len(hits) != 1:
+                    bad = bad or "for (i, j, d) = (%d, %d, %d) %d returns are possible" % (i, j, d, len(hits))
+                    continue
+                got = rets[hits.pop()]
+                want = None if (i > 3 or j > 3 or d < 1 or d > 5) else (1 if i == j else 0 if abs(i - j) == 1 else 2)
+                n += 1
+                if got != want:
+                    bad = bad or "m(%d, %d, %d) on a D-set of dimension 3 and size 5 is %s, expected %s%s" % (
+                        i, j, d, "None" if got is None else "Some(%s)" % got, "None" if want is None else "Some(%d)" % want,
+                        " (m is symmetric in its two indices)" if want == 0 else "")
+    ctx.ob("T4-default-m-table", b.name, "decision table", "ok" if not bad and n else "violation",
+           "1 on the diagonal, 0 for adjacent indices in either order, 2 otherwise, None outside the ranges (%d argument triples)" % n if not bad and n else (bad or "nothing evaluated"))
 
 
 def query_ranges(ctx):
